@@ -190,6 +190,22 @@ pub fn tool(cmd: &str, args: &[String]) -> i32 {
                 Err(why) => { println!("REPRODUCED {}", why); 1 }
             }
         }
+        "pk-case" => {
+            // pk-case <512|1024> <hex>: strictness of PublicKey::from_bytes on one byte string
+            let n: usize = args[0].parse().unwrap();
+            let b = unhex(&args[1]);
+            let r = if n == 512 { crate::falcon512::PublicKey::from_bytes(&b).map(|k| k.to_bytes()) }
+                    else { crate::falcon1024::PublicKey::from_bytes(&b).map(|k| k.to_bytes()) };
+            match r {
+                Ok(back) if back == b => { println!("accepted; re-encoding reproduces the input"); 0 }
+                Ok(back) => {
+                    let i = back.iter().zip(b.iter()).position(|(x, y)| x != y).unwrap_or(0);
+                    println!("REPRODUCED accepted a non-canonical public key: re-encoding differs at byte {} ({:02x} vs {:02x})", i, back[i], b[i]);
+                    1
+                }
+                Err(e) => { println!("rejected: {:?}", e); 0 }
+            }
+        }
         "decompress-case" => {
             let x = unhex(&args[0]);
             let n: usize = args[1].parse().unwrap();
